@@ -181,6 +181,23 @@ Theorem C02_illtyped_extension_refuted :
   run_packets registry true (flatten_all d18_witness ++ [TEnd stream_name]) = [Err EDecode].
 Proof. split; vm_compute; reflexivity. Qed.
 
+(* the two remaining name-check findings: hypotheses (a) and (b) are needed
+   <iq><command xmlns='http://jabber.org/protocol/commands'><x xmlns='u'/></command></iq>
+   <failed xmlns='urn:xmpp:sm:3'><conflict xmlns='u'/></failed> *)
+Definition foreign_witness1 : list node :=
+  [NElem (cl "iq") [at_ "id" "1"] [NElem command_name [] [NElem (un "x") [] []]];
+   NElem (cl "presence") [] []].
+Definition foreign_witness2 : list node :=
+  [NElem (ns_sm, bytes_of "failed") [] [NElem (un "conflict") [] []];
+   NElem (cl "presence") [] []].
+
+Theorem C02_foreign_names_refuted :
+  forallb (top_ok registry) foreign_witness1 = false /\
+  run_packets registry true (flatten_all foreign_witness1 ++ [TEnd stream_name]) = [Err EDecode] /\
+  forallb (top_ok registry) foreign_witness2 = false /\
+  run_packets registry true (flatten_all foreign_witness2 ++ [TEnd stream_name]) = [Err EDecode].
+Proof. repeat split; vm_compute; reflexivity. Qed.
+
 (* non-vacuity: a stream whose elements contain unknown children, a nested same-named
    stanza (carbons shape), known child names below an unknown parent, a registered
    extension, an error child, white space and a comment between elements *)
@@ -234,3 +251,4 @@ Print Assumptions C02_attr_value.
 Print Assumptions C02_attr_absent.
 Print Assumptions C02_unrepaired_refuted.
 Print Assumptions C02_illtyped_extension_refuted.
+Print Assumptions C02_foreign_names_refuted.
